@@ -176,6 +176,9 @@ func (o *c05Oracle) nullField(f *c05Fld, fv reflect.Value, p string) {
 	if !fv.IsValid() || fv.IsZero() {
 		return
 	}
+	if fv.Kind() == reflect.Ptr && fv.Elem().IsZero() {
+		return // a pointer to the zero value (YAML null reaches the unmarshaler as "")
+	}
 	switch fv.Kind() {
 	case reflect.Slice, reflect.Map:
 		if fv.Len() == 0 {
